@@ -19,7 +19,6 @@ import os
 import sys
 import time
 import traceback
-from concurrent.futures import ProcessPoolExecutor, as_completed
 
 from . import env, rng
 
@@ -103,42 +102,48 @@ _CHECK = None
 
 
 def _worker_main(args):
-    (check_factory, seed, runs, worker_index, nworkers, tier, deadline, hang_cap) = args
+    """Body of one forked worker: executes its runs in order, appending one JSON line per run to `path`."""
+    (check_factory, seed, runs, worker_index, nworkers, tier, deadline, hang_cap, path) = args
     global _CHECK
     faulthandler.enable()
     t0 = time.time()
-    out = {"worker": worker_index, "results": [], "error": None, "warm_s": 0.0}
-    try:
-        if _CHECK is None:
-            _CHECK = check_factory()
-        chk = _CHECK
-        chk.worker_index = worker_index
-        chk.nworkers = nworkers
-        chk.tier = tier
-        faulthandler.dump_traceback_later(hang_cap, exit=True)
-        if hasattr(chk, "warmup"):
-            chk.warmup(worker_index, nworkers, tier)
-        out["warm_s"] = time.time() - t0
-        faulthandler.cancel_dump_traceback_later()
-        for r in runs:
-            if time.time() > deadline:
-                break
-            faulthandler.dump_traceback_later(hang_cap, exit=True)
-            t1 = time.time()
-            case = chk.generate(seed, r)
-            outcome = chk.execute(case)
-            res = outcome.to_json()
-            res["run"] = r
-            res["wall_s"] = time.time() - t1
-            if outcome.violations:
-                res["case"] = case
-            out["results"].append(res)
+    with open(path, "w") as f:
+        def emit(obj):
+            f.write(json.dumps(obj, default=rng._default) + "\n")
+            f.flush()
+
+        try:
+            if _CHECK is None:
+                _CHECK = check_factory()
+            chk = _CHECK
+            chk.worker_index = worker_index
+            chk.nworkers = nworkers
+            chk.tier = tier
+            if hasattr(chk, "warmup"):
+                faulthandler.dump_traceback_later(hang_cap, exit=True)
+                chk.warmup(worker_index, nworkers, tier)
+                faulthandler.cancel_dump_traceback_later()
+            emit({"warm_s": time.time() - t0})
+            for r in runs:
+                if time.time() > deadline:
+                    emit({"skipped_from": r})
+                    break
+                faulthandler.dump_traceback_later(hang_cap, exit=True)
+                t1 = time.time()
+                case = chk.generate(seed, r)
+                outcome = chk.execute(case)
+                res = outcome.to_json()
+                res["run"] = r
+                res["wall_s"] = time.time() - t1
+                if outcome.violations:
+                    res["case"] = case
+                emit({"result": res})
+                faulthandler.cancel_dump_traceback_later()
+            emit({"done": True})
+        except BaseException:  # noqa: BLE001
+            emit({"error": traceback.format_exc()})
+        finally:
             faulthandler.cancel_dump_traceback_later()
-    except BaseException:  # noqa: BLE001
-        out["error"] = traceback.format_exc()
-    finally:
-        faulthandler.cancel_dump_traceback_later()
-    return out
 
 
 # --------------------------------------------------------------------------------------
@@ -185,7 +190,7 @@ def replay(check, path):
     return 0
 
 
-def run(check_factory, prop, tier, runs, nworkers=None, wall_cap=None, hang_cap=900, extra_evidence=None, finalize=None):
+def run(check_factory, prop, tier, runs, nworkers=None, wall_cap=None, hang_cap=3600, extra_evidence=None, finalize=None):
     """Run `runs` seeded runs over a fork pool; write evidence; print verdict; return exit code."""
     t_start = time.time()
     seed = rng.base_seed()
@@ -194,7 +199,7 @@ def run(check_factory, prop, tier, runs, nworkers=None, wall_cap=None, hang_cap=
         nworkers = min(16, os.cpu_count() or 1, max(1, runs))
     nworkers = max(1, min(nworkers, runs))
     if wall_cap is None:
-        wall_cap = 1500 if tier == "quick" else 6 * 3600
+        wall_cap = 3000 if tier == "quick" else 8 * 3600
     deadline = t_start + wall_cap
     parts = [[r for r in range(runs) if r % nworkers == k] for k in range(nworkers)]
     ctx = multiprocessing.get_context("fork")
@@ -206,24 +211,49 @@ def run(check_factory, prop, tier, runs, nworkers=None, wall_cap=None, hang_cap=
     _CHECK = check  # forked children inherit it (and whatever it compiled in the parent)
     if hasattr(check, "parent_warmup"):
         check.parent_warmup(tier)
-    with ProcessPoolExecutor(max_workers=nworkers, mp_context=ctx) as pool:
-        futs = [
-            pool.submit(_worker_main, (check_factory, seed, parts[k], k, nworkers, tier, deadline, hang_cap))
-            for k in range(nworkers)
-        ]
+    # one forked process per worker; results travel through per-worker JSONL files so that a worker that
+    # dies (or hangs and is killed by its watchdog) loses only its own remaining runs
+    import tempfile
+
+    outdir = tempfile.mkdtemp(prefix="results_", dir=env.scratch_dir())
+    procs = []
+    for k in range(nworkers):
+        path = os.path.join(outdir, "w%d.jsonl" % k)
+        pr = ctx.Process(target=_worker_main, args=((check_factory, seed, parts[k], k, nworkers, tier, deadline, hang_cap, path),))
+        pr.start()
+        procs.append((k, pr, path))
+    for k, pr, path in procs:
+        remaining = max(1.0, deadline + hang_cap + 120 - time.time())
+        pr.join(remaining)
+        if pr.is_alive():
+            pr.terminate()
+            pr.join(10)
+            errors.append("worker %d did not finish in time and was terminated" % k)
+    for k, pr, path in procs:
+        done = False
         try:
-            for fut in as_completed(futs, timeout=wall_cap + hang_cap + 60):
-                try:
-                    out = fut.result()
-                except BaseException as e:  # noqa: BLE001  (dead worker)
-                    errors.append("worker died: %r" % (e,))
-                    continue
-                if out["error"]:
-                    errors.append("worker %d: %s" % (out["worker"], out["error"]))
-                warm.append(out["warm_s"])
-                results.extend(out["results"])
-        except BaseException as e:  # noqa: BLE001
-            errors.append("pool: %r" % (e,))
+            with open(path) as f:
+                for line in f:
+                    try:
+                        obj = json.loads(line)
+                    except ValueError:
+                        continue
+                    if "result" in obj:
+                        results.append(obj["result"])
+                    elif "warm_s" in obj:
+                        warm.append(obj["warm_s"])
+                    elif "error" in obj:
+                        errors.append("worker %d: %s" % (k, obj["error"]))
+                        done = True
+                    elif "done" in obj or "skipped_from" in obj:
+                        done = True
+        except OSError:
+            pass
+        if not done:
+            errors.append("worker %d died (exit code %s) before finishing its runs" % (k, pr.exitcode))
+    import shutil
+
+    shutil.rmtree(outdir, ignore_errors=True)
     results.sort(key=lambda r: r["run"])
     if finalize is not None:
         # side computations started by the check before the pool (e.g. model validation in subprocesses):
